@@ -1,5 +1,7 @@
 import VlsModel.Model.Onchain
 import VlsModel.Gen.FnSimple
+import VlsModel.Gen.FnOnchainTx
+import VlsModel.Gen.FnTxUtilC08
 import VlsModel.Lemmas.FnGen
 /-
 C08 — `Onchain.beneficialValue` (the fee bound of `sign_onchain_tx`) proved equal to the body of
@@ -59,5 +61,434 @@ theorem C08_fn_default_dev_flags (p : Policy) (hd : p.devDisable = false) (sumIn
     (toVNoFlags p).validate_beneficial_value (filt p) sumIn sumOut weight
       = (toV p).validate_beneficial_value (filt p) sumIn sumOut weight := by
   simp [SimpleValidator.validate_beneficial_value, toVNoFlags, toV, hd]
+
+/-! ## `validate_onchain_tx` (the output classification loop, the sums, the final fee check) and `is_tx_non_malleable`
+
+`Gen/FnOnchainTx.lean` is the body of `SimpleValidator::validate_onchain_tx` as regenerated from the source (after the
+textual normalisations listed at the top of that file).  The library calls are explicit parameters; they are
+instantiated here with the facts the model takes as inputs:
+
+  `wallet.can_spend(opath, script)`            `Out.canSpend`  (`Err` ↦ `none`)
+  `wallet.allowlist_contains(script, path)`    `Out.scriptAllow`, and for a non-empty path `Out.xpub` (`.panic` = the
+                                               `derive_pub(..).unwrap()` panic)
+  `opath.len()`, `DerivationPath::master()`    the length, 0
+  `tx.base_size()`                             `Req.baseSize`
+  `is_tx_non_malleable(tx, segwit_flags)`      the generated `Gen.FnTxUtilC08.is_tx_non_malleable` on `Req.nInputs` inputs
+  `ChannelSlot::Ready(chan)`                   the generated enum `ChannelSlot` (Stub | Ready); the model only has Ready slots
+                                               (a Stub slot reaches the `_ => panic!("this can't happen")` arm of the generated text)
+  the channel's p2wsh funding script           equal to the output's script iff `ChanFacts.scriptMatch`
+-/
+
+def filtP (f : Filter) : String → Bool := fun tag =>
+  if tag = Tag.fmtStandard.name then f.fmtStandard else
+  if tag = Tag.maxSize.name then f.maxSize else
+  if tag = Tag.nonMalleable.name then f.nonMalleable else
+  if tag = Tag.noUnknown.name then f.noUnknown else
+  if tag = Tag.matchCommitment.name then f.matchCommitment else
+  if tag = Tag.outputScript.name then f.outputScript else
+  if tag = Tag.initialCountersigned.name then f.initialCountersigned else
+  if tag = Tag.noFundInbound.name then f.noFundInbound else
+  if tag = Tag.noChannelPush.name then f.noChannelPush else
+  if tag = Tag.feeRange.name then f.feeRange else true
+
+def toVTx (p : Policy) : Gen.FnOnchainTx.SimpleValidator :=
+  { policy := { max_feerate_per_kw := p.maxFeerate,
+                dev_flags := some { disable_beneficial_balance_checks := p.devDisable } } }
+
+def canSpendE : Unit → Nat → Out → Option Bool := fun _ _ o => o.canSpend
+
+def allowE : Unit → Out → Nat → Rs.M Bool := fun _ o len =>
+  if o.scriptAllow then pure true
+  else if len = 0 then pure false
+  else match o.xpub with
+    | .yes => pure true
+    | .no => pure false
+    | .panic => Rs.panic
+
+/-- some script different from `o` -/
+def otherScript (o : Out) : Out := { o with value := o.value + 1 }
+
+theorem otherScript_ne (o : Out) : (o != otherScript o) = true := by
+  simp only [bne_iff_ne, ne_eq]
+  intro h
+  have := congrArg Out.value h
+  simp [otherScript] at this
+
+def toChan (o : Out) (c : ChanFacts) : Gen.FnOnchainTx.Channel Out :=
+  { keys := if c.scriptMatch then o else otherScript o,
+    enforcement_state := { next_holder_commit_num := c.nextHolderCommit },
+    setup := { is_outbound := c.outbound, channel_value_sat := c.value, push_value_msat := c.pushMsat } }
+
+def toTx (r : Req) : Gen.FnOnchainTx.Transaction Out :=
+  { version := (r.version : Int), output := r.outs.map (fun o => { value := o.value, script_pubkey := o }) }
+
+def channelsOf (r : Req) : List (Option (Gen.FnOnchainTx.ChannelSlot Out)) :=
+  r.outs.map (fun o => o.chan.map (fun c => .Ready (toChan o c)))
+
+
+def nonMalleableE (r : Req) : Gen.FnOnchainTx.Transaction Out → List Bool → Rs.M Bool :=
+  fun _ flags => Gen.FnTxUtilC08.is_tx_non_malleable { input := List.replicate r.nInputs () } flags
+
+/-- `opaths` has `nOpaths` entries, and where an output has an entry its length is the model's `pathLen` -/
+def OpathsOf (r : Req) (opaths : List Nat) : Prop :=
+  opaths.length = r.nOpaths ∧ ∀ i o, r.outs[i]? = some o → i < r.nOpaths → opaths[i]? = some o.pathLen
+
+/-- the outcome the generated function must have for a result of the model -/
+def enc : Res → Rs.M Nat
+  | .ok nb => .ok nb
+  | .unknown l => .error (.err ("unknown-destinations " ++ toString l))
+  | .err t => .error (.err t.name)
+  | .panic => .error .panic
+
+/-- **`is_tx_non_malleable`**: the `assert_eq!` on the lengths, then all flags -/
+theorem C08_fn_is_tx_non_malleable (n : Nat) (flags : List Bool) :
+    Gen.FnTxUtilC08.is_tx_non_malleable { input := List.replicate n () } flags
+      = if n = flags.length then (Except.ok (flags.all id) : Rs.M Bool) else Except.error Rs.Fail.panic := by
+  unfold Gen.FnTxUtilC08.is_tx_non_malleable
+  by_cases h : n = flags.length
+  · simp [h, Rs.assert, List.all_eq, bind, Except.bind, pure, Except.pure]
+  · simp [h, Rs.assert, Rs.panic, bind, Except.bind]
+
+/-! ### the output loop -/
+
+/-- one iteration, as the model has it, in the outcome monad; state = (beneficial_sum, unknowns oldest first) -/
+def stepM (flt : Filter) (nOpaths : Nat) (st : Nat × List Nat) (i : Nat) (o : Out) : Rs.M (Nat × List Nat) :=
+  if nOpaths ≤ i then Rs.panic else
+  match classifyStep flt o with
+  | .add v =>
+    match U64.checkedAdd st.1 v with
+    | none => Rs.fail Tag.feeRange.name
+    | some s => pure (s, st.2)
+  | .skip => pure st
+  | .unknown => pure (st.1, st.2 ++ [i])
+  | .err t => Rs.fail t.name
+  | .panic => Rs.panic
+
+def encLoop : LoopRes → Rs.M (Nat × List Nat)
+  | .done s u => pure (s, u)
+  | .err t => Rs.fail t.name
+  | .panic => Rs.panic
+
+theorem loop_eq (flt : Filter) (nOp : Nat) (f : Nat × List Nat → Nat → Rs.M (Nat × List Nat)) :
+    ∀ (outs : List Out) (i sum : Nat) (unk : List Nat),
+      (∀ st k o, outs[k]? = some o → f st (i + k) = stepM flt nOp st (i + k) o) →
+      List.foldlM f (sum, unk.reverse) (List.range' i outs.length) = encLoop (outLoop flt nOp outs i sum unk) := by
+  intro outs
+  induction outs with
+  | nil => intro i sum unk _; simp [outLoop, encLoop, pure, Except.pure]
+  | cons o rest ih =>
+    intro i sum unk hf
+    have h0 := hf (sum, unk.reverse) 0 o (by simp)
+    simp only [Nat.add_zero] at h0
+    have hf' : ∀ st k o', rest[k]? = some o' → f st (i + 1 + k) = stepM flt nOp st (i + 1 + k) o' := by
+      intro st k o' hk
+      have := hf st (k + 1) o' (by simpa using hk)
+      simpa [Nat.add_assoc, Nat.add_comm 1 k] using this
+    simp only [List.length_cons, List.range'_succ, List.foldlM_cons, h0]
+    unfold stepM outLoop
+    by_cases hn : nOp ≤ i
+    · simp [hn, encLoop, Rs.panic, bind, Except.bind]
+    · simp only [hn, if_false]
+      cases hc : classifyStep flt o with
+      | add v =>
+        simp only
+        cases ha : U64.checkedAdd sum v with
+        | none => simp [encLoop, Rs.fail, bind, Except.bind]
+        | some s =>
+          simp only [Rs.pure_eq, Rs.bind_ok]
+          exact ih (i + 1) s unk hf'
+      | skip =>
+        simp only [Rs.pure_eq, Rs.bind_ok]
+        exact ih (i + 1) sum unk hf'
+      | unknown =>
+        simp only [Rs.pure_eq, Rs.bind_ok]
+        have := ih (i + 1) sum (i :: unk) hf'
+        simpa using this
+      | err t => simp [encLoop, Rs.fail, bind, Except.bind]
+      | panic => simp [encLoop, Rs.panic, bind, Except.bind]
+
+theorem loop_eq0 (flt : Filter) (nOp : Nat) (f : Nat × List Nat → Nat → Rs.M (Nat × List Nat)) (outs : List Out)
+    (hf : ∀ st k o, outs[k]? = some o → f st k = stepM flt nOp st k o) :
+    List.foldlM f (0, []) (List.range' 0 outs.length) = encLoop (outLoop flt nOp outs 0 0 []) := by
+  have := loop_eq flt nOp f outs 0 0 [] (by intro st k o hk; simpa using hf st k o hk)
+  simpa using this
+
+/-- a `policy_err!` guard `if c { policy_err!(self, tag, ..) }` followed by the rest `k` -/
+theorem policyErrIf_bind {α : Type} (flt : String → Bool) (tag : String) (c : Bool) (k : Unit → Rs.M α) :
+    (Rs.policyErrIf flt tag c >>= k) = if c = true ∧ flt tag = true then Rs.fail tag else k () := by
+  cases c <;> cases h : flt tag <;> simp [Rs.policyErrIf, Rs.policyErr, h, Rs.fail, bind, Except.bind, pure, Except.pure]
+
+theorem keys_ne (o : Out) (c : ChanFacts) : (o != (toChan o c).keys) = !c.scriptMatch := by
+  cases h : c.scriptMatch <;> simp [toChan, h, otherScript_ne]
+
+theorem anyChannel_eq (r : Req) : ((channelsOf r).any fun c => c.isSome) = anyChannel r.outs := by
+  simp [channelsOf, anyChannel, List.any_map, Function.comp_def]
+
+theorem maxOnchainTxSize_gen : Gen.Onchain.maxOnchainTxSize = 32768 := by decide
+
+theorem ucheckedAdd_eq (a b : Nat) : Rs.ucheckedAdd Rs.U64_MAX a b = U64.checkedAdd a b := rfl
+theorem ucheckedSub_eq (a b : Nat) : Rs.ucheckedSub a b = U64.checkedSub a b := rfl
+
+@[simp] theorem filtP_fmtStandard (f : Filter) : filtP f "policy-onchain-format-standard" = f.fmtStandard := by simp [filtP, Tag.name]
+@[simp] theorem filtP_maxSize (f : Filter) : filtP f "policy-onchain-max-size" = f.maxSize := by simp [filtP, Tag.name]
+@[simp] theorem filtP_nonMalleable (f : Filter) : filtP f "policy-onchain-funding-non-malleable" = f.nonMalleable := by simp [filtP, Tag.name]
+@[simp] theorem filtP_noUnknown (f : Filter) : filtP f "policy-onchain-no-unknown-outputs" = f.noUnknown := by simp [filtP, Tag.name]
+@[simp] theorem filtP_matchCommitment (f : Filter) : filtP f "policy-onchain-output-match-commitment" = f.matchCommitment := by simp [filtP, Tag.name]
+@[simp] theorem filtP_outputScript (f : Filter) : filtP f "policy-onchain-output-scriptpubkey" = f.outputScript := by simp [filtP, Tag.name]
+@[simp] theorem filtP_initialCountersigned (f : Filter) : filtP f "policy-onchain-initial-commitment-countersigned" = f.initialCountersigned := by simp [filtP, Tag.name]
+@[simp] theorem filtP_noFundInbound (f : Filter) : filtP f "policy-onchain-no-fund-inbound" = f.noFundInbound := by simp [filtP, Tag.name]
+@[simp] theorem filtP_noChannelPush (f : Filter) : filtP f "policy-onchain-no-channel-push" = f.noChannelPush := by simp [filtP, Tag.name]
+@[simp] theorem filtP_feeRange (f : Filter) : filtP f "policy-onchain-fee-range" = f.feeRange := by simp [filtP, Tag.name]
+
+/-- the sum of the input values -/
+theorem sumInputs_eq (vals : List Nat) (acc : Nat) :
+    List.foldlM (fun (sum_inputs : Nat) (val : Nat) => do
+        let t_15 ← Rs.okOr (Rs.ucheckedAdd Rs.U64_MAX sum_inputs val) "policy-onchain-fee-range"
+        let sum_inputs := t_15
+        pure sum_inputs) acc vals
+      = match sumInputs vals acc with
+        | none => Rs.fail "policy-onchain-fee-range"
+        | some s => pure s := by
+  induction vals generalizing acc with
+  | nil => simp [sumInputs, pure, Except.pure]
+  | cons v vs ih =>
+    rw [List.foldlM_cons]
+    unfold sumInputs
+    have hc : Rs.ucheckedAdd Rs.U64_MAX acc v = U64.checkedAdd acc v := rfl
+    simp only [hc]
+    cases h : U64.checkedAdd acc v with
+    | none => simp [Rs.okOr, Rs.fail, bind, Except.bind]
+    | some a =>
+      simp only [Rs.okOr, Rs.pure_eq, Rs.bind_ok]
+      exact ih a
+
+theorem sumInputs_le (vals : List Nat) (acc s : Nat) (ha : acc ≤ U64.MAX) (h : sumInputs vals acc = some s) : s ≤ U64.MAX := by
+  induction vals generalizing acc with
+  | nil => simp [sumInputs] at h; omega
+  | cons v vs ih =>
+    simp only [sumInputs] at h
+    cases hc : U64.checkedAdd acc v with
+    | none => simp [hc] at h
+    | some a =>
+      simp only [hc] at h
+      have : a ≤ U64.MAX := by
+        unfold U64.checkedAdd at hc
+        split at hc
+        · cases hc; assumption
+        · cases hc
+      exact ih a this h
+
+/-- `validate_beneficial_value` as translated inside this unit (same text as in `Gen/FnSimple.lean`) -/
+theorem beneficial_eq (p : Policy) (sumIn sumOut weight : Nat) (hin : sumIn ≤ Rs.U64_MAX) :
+    Gen.FnOnchainTx.SimpleValidator.validate_beneficial_value (filtP p.flt) (toVTx p) sumIn sumOut weight
+      = enc (beneficialValue p sumIn sumOut weight) := by
+  unfold Gen.FnOnchainTx.SimpleValidator.validate_beneficial_value beneficialValue impliedFeerate U64.checkedSub
+  simp only [Rs.okOr, Rs.ucheckedSub]
+  by_cases h1 : sumOut ≤ sumIn
+  · have hm := (Rs.fee_rate_fits (sumIn - sumOut) (Nat.le_trans (Nat.sub_le _ _) hin)).1
+    have ha := (Rs.fee_rate_fits (sumIn - sumOut) (Nat.le_trans (Nat.sub_le _ _) hin)).2
+    simp only [h1, if_true, Rs.umul, hm, Rs.uadd, ha, Rs.udiv, Rs.bind_ok, Rs.pure_eq]
+    by_cases hw : weight = 0
+    · simp [hw, enc, Rs.panic, bind, Except.bind]
+    · simp only [hw, if_false, Rs.bind_ok]
+      by_cases h2 : p.maxFeerate < ((sumIn - sumOut) * 1000 + 999) / weight
+      · by_cases h3 : p.devDisable = true
+        · simp [toVTx, h2, h3, enc]
+        · have h3' : p.devDisable = false := by simpa using h3
+          by_cases h4 : p.flt.feeRange = true
+          · simp [toVTx, h2, h3', h4, enc, Rs.policyErr, Rs.fail, Tag.name, bind, Except.bind]
+          · have h4' : p.flt.feeRange = false := by simpa using h4
+            simp [toVTx, h2, h3', h4', enc, Rs.policyErr, Tag.name]
+      · simp [toVTx, h2, enc]
+  · simp [h1, enc, Rs.fail, Tag.name, bind, Except.bind]
+
+theorem sumInputs_eq_bind (vals : List Nat) (acc : Nat) :
+    List.foldlM (fun (sum_inputs : Nat) (val : Nat) =>
+        Rs.okOr (Rs.ucheckedAdd Rs.U64_MAX sum_inputs val) "policy-onchain-fee-range" >>= fun t_15 => pure t_15) acc vals
+      = match sumInputs vals acc with
+        | none => Rs.fail "policy-onchain-fee-range"
+        | some s => pure s := sumInputs_eq vals acc
+
+/-- everything behind the output loop: the unknown-destinations report, the input sum, the fee check -/
+theorem tail_eq (p : Policy) (r : Req) (w : Nat) (L : LoopRes) :
+    (do
+      let __x ← encLoop L
+      if decide (__x.snd.length > 0) = true then Rs.fail ("unknown-destinations " ++ toString __x.snd)
+        else do
+          let sum_inputs ←
+            List.foldlM
+                (fun sum_inputs val =>
+                  Rs.okOr (Rs.ucheckedAdd Rs.U64_MAX sum_inputs val) "policy-onchain-fee-range" >>= fun t_15 => pure t_15)
+                0 r.inValues
+          Gen.FnOnchainTx.SimpleValidator.validate_beneficial_value (filtP p.flt) (toVTx p) sum_inputs __x.fst w)
+      = enc (match L with
+             | .panic => .panic
+             | .err t => .err t
+             | .done sumOut unk =>
+               if unk ≠ [] then .unknown unk
+               else match sumInputs r.inValues 0 with
+                 | none => .err .feeRange
+                 | some sumIn => beneficialValue p sumIn sumOut w) := by
+  cases L with
+  | panic => simp [encLoop, enc, Rs.panic, bind, Except.bind]
+  | err t => simp [encLoop, enc, Rs.fail, bind, Except.bind]
+  | done s u =>
+    simp only [encLoop, pure_bind]
+    by_cases hu : u = []
+    · subst hu
+      simp only [List.length_nil, Nat.lt_irrefl, decide_false, Bool.false_eq_true, if_false, ne_eq, not_true_eq_false,
+        gt_iff_lt]
+      rw [sumInputs_eq_bind]
+      cases hs : sumInputs r.inValues 0 with
+      | none => simp [enc, Rs.fail, Tag.name, bind, Except.bind]
+      | some si =>
+        have hle : si ≤ Rs.U64_MAX := sumInputs_le r.inValues 0 si (by decide) hs
+        simp only [Rs.pure_eq, Rs.bind_ok]
+        exact beneficial_eq p si s w hle
+    · have hpos : decide (u.length > 0) = true := by
+        simp only [gt_iff_lt, decide_eq_true_eq]
+        exact List.length_pos_iff.mpr hu
+      simp [hpos, hu, enc, Rs.fail]
+
+/-- **`validate_onchain_tx` = `Onchain.validateOnchain`**, for every policy (filter, dev flag, max feerate), request
+    (version, size, inputs, segwit flags, outputs with their wallet / allowlist / channel facts) and weight -/
+theorem C08_fn_validate_onchain_tx (p : Policy) (r : Req) (w : Nat) (opaths : List Nat) (hop : OpathsOf r opaths) :
+    Gen.FnOnchainTx.SimpleValidator.validate_onchain_tx (filtP p.flt) (fun _ => r.baseSize) (nonMalleableE r) id canSpendE allowE 0
+        (fun keys _ => keys) (toVTx p) () (channelsOf r) (toTx r) r.segwit r.inValues opaths w
+      = enc (validateOnchain p r w) := by
+  obtain ⟨hlen, hop⟩ := hop
+  unfold Gen.FnOnchainTx.SimpleValidator.validate_onchain_tx
+  have hrange : Rs.range 0 (toTx r).output.length = List.range' 0 r.outs.length := by simp [Rs.range, toTx]
+  simp only [hrange, policyErrIf_bind, filtP_fmtStandard, filtP_maxSize, filtP_nonMalleable]
+  rw [loop_eq0 p.flt r.nOpaths _ r.outs ?hf]
+  case hf =>
+    intro ⟨bs, unk⟩ k o hk
+    have h_out : (toTx r).output[k]? = some { value := o.value, script_pubkey := o } := by simp [toTx, hk]
+    have h_ch : (channelsOf r)[k]? = some (o.chan.map (fun c => .Ready (toChan o c))) := by simp [channelsOf, hk]
+    simp only [Rs.index, h_out, h_ch, Rs.pure_eq, Rs.bind_ok]
+    unfold stepM
+    by_cases hn : r.nOpaths ≤ k
+    · have : opaths[k]? = none := by simp [List.getElem?_eq_none_iff, hlen, hn]
+      simp [this, hn, Rs.panic, bind, Except.bind]
+    · have h_op : opaths[k]? = some o.pathLen := hop k o hk (by omega)
+      simp only [h_op, hn, if_false, Rs.pure_eq, Rs.bind_ok, id]
+      unfold classifyStep
+      by_cases hp : 0 < o.pathLen
+      · have hp' : decide (o.pathLen > 0) = true := by simpa using hp
+        simp only [hp', hp, if_true]
+        cases hcs : o.canSpend with
+        | none => simp [canSpendE, hcs, Rs.okOr, Rs.fail, Tag.name, bind, Except.bind]
+        | some b =>
+          cases b with
+          | true =>
+            cases hadd : U64.checkedAdd bs o.value <;>
+              simp [canSpendE, hcs, Rs.okOr, ucheckedAdd_eq, hadd, Rs.fail, Tag.name, bind, Except.bind, pure, Except.pure]
+          | false =>
+            have hp0 : ¬ o.pathLen = 0 := by omega
+            cases hsa : o.scriptAllow with
+            | true =>
+              cases hadd : U64.checkedAdd bs o.value <;>
+                simp [canSpendE, allowE, hcs, hsa, Rs.okOr, ucheckedAdd_eq, hadd, Rs.fail, Tag.name, bind, Except.bind, pure,
+                  Except.pure]
+            | false =>
+              cases hx : o.xpub with
+              | yes =>
+                cases hadd : U64.checkedAdd bs o.value <;>
+                  simp [canSpendE, allowE, hcs, hsa, hx, hp0, Rs.okOr, ucheckedAdd_eq, hadd, Rs.fail, Tag.name, bind,
+                    Except.bind, pure, Except.pure]
+              | no =>
+                cases hfu : p.flt.noUnknown <;>
+                  simp [canSpendE, allowE, hcs, hsa, hx, hp0, hfu, Rs.okOr, Rs.fail, Tag.name, bind, Except.bind, pure,
+                    Except.pure]
+              | panic =>
+                simp [canSpendE, allowE, hcs, hsa, hx, hp0, Rs.okOr, Rs.panic, bind, Except.bind]
+      · have hp' : decide (o.pathLen > 0) = false := by simpa using hp
+        simp only [hp', hp, if_false, Bool.false_eq_true]
+        cases hsa : o.scriptAllow with
+        | true =>
+          cases hadd : U64.checkedAdd bs o.value <;>
+            simp [allowE, hsa, Rs.okOr, ucheckedAdd_eq, hadd, Rs.fail, Tag.name, bind, Except.bind, pure, Except.pure]
+        | false =>
+          cases hch : o.chan with
+          | none => simp [allowE, hsa, bind, Except.bind, pure, Except.pure]
+          | some c =>
+            simp only [allowE, hsa, Bool.false_eq_true, if_false, if_true, Rs.pure_eq, Rs.bind_ok, Option.map_some,
+              keys_ne, filtP_matchCommitment, filtP_outputScript, filtP_initialCountersigned, filtP_noFundInbound,
+              filtP_noChannelPush, toChan, Rs.udiv]
+            simp only [decide_false, Bool.false_eq_true, if_false]
+            have hk2 : (o != if c.scriptMatch = true then o else otherScript o) = !c.scriptMatch := by
+              cases h : c.scriptMatch <;> simp [otherScript_ne]
+            rw [hk2]
+            unfold chanStep
+            by_cases g1 : o.value ≠ c.value ∧ p.flt.matchCommitment = true
+            · have g1' : (o.value != c.value) = true ∧ p.flt.matchCommitment = true := by simpa using g1
+              rw [if_pos g1', if_pos g1]; simp [Rs.fail, Tag.name]
+            · have g1' : ¬((o.value != c.value) = true ∧ p.flt.matchCommitment = true) := by simpa using g1
+              rw [if_neg g1', if_neg g1]
+              by_cases g2 : c.scriptMatch = false ∧ p.flt.outputScript = true
+              · have g2' : (!c.scriptMatch) = true ∧ p.flt.outputScript = true := by simpa using g2
+                rw [if_pos g2', if_pos g2]; simp [Rs.fail, Tag.name]
+              · have g2' : ¬((!c.scriptMatch) = true ∧ p.flt.outputScript = true) := by simpa using g2
+                rw [if_neg g2', if_neg g2]
+                by_cases g3 : c.nextHolderCommit ≠ 1 ∧ p.flt.initialCountersigned = true
+                · have g3' : (c.nextHolderCommit != 1) = true ∧ p.flt.initialCountersigned = true := by simpa using g3
+                  rw [if_pos g3', if_pos g3]; simp [Rs.fail, Tag.name]
+                · have g3' : ¬((c.nextHolderCommit != 1) = true ∧ p.flt.initialCountersigned = true) := by simpa using g3
+                  rw [if_neg g3', if_neg g3]
+                  by_cases g4 : c.outbound = false ∧ p.flt.noFundInbound = true
+                  · have g4' : (!c.outbound) = true ∧ p.flt.noFundInbound = true := by simpa using g4
+                    rw [if_pos g4', if_pos g4]; simp [Rs.fail, Tag.name]
+                  · have g4' : ¬((!c.outbound) = true ∧ p.flt.noFundInbound = true) := by simpa using g4
+                    rw [if_neg g4', if_neg g4]
+                    have h1000 : ¬ (1000 = 0) := by decide
+                    simp only [h1000, if_false, Rs.bind_ok]
+                    by_cases g5 : 0 < c.pushMsat / 1000 ∧ p.flt.noChannelPush = true
+                    · have g5' : decide (c.pushMsat / 1000 > 0) = true ∧ p.flt.noChannelPush = true := by simpa using g5
+                      rw [if_pos g5', if_pos g5]; simp [Rs.fail, Tag.name]
+                    · have g5' : ¬(decide (c.pushMsat / 1000 > 0) = true ∧ p.flt.noChannelPush = true) := by simpa using g5
+                      rw [if_neg g5', if_neg g5]
+                      by_cases g6 : c.value < c.pushMsat / 1000
+                      · have : ¬ c.pushMsat / 1000 ≤ c.value := by omega
+                        simp [g6, Rs.ucheckedSub, this, Rs.okOr, Rs.fail, Tag.name, bind, Except.bind]
+                      · have : c.pushMsat / 1000 ≤ c.value := by omega
+                        cases hadd : U64.checkedAdd bs (c.value - c.pushMsat / 1000) <;>
+                          simp [g6, Rs.ucheckedSub, this, Rs.okOr, ucheckedAdd_eq, hadd, Rs.fail, Tag.name, bind, Except.bind,
+                            pure, Except.pure]
+  -- the checks in front of the loop
+  simp only [tail_eq]
+  unfold validateOnchain
+  by_cases c1 : r.version ≠ 2 ∧ p.flt.fmtStandard = true
+  · have c1' : ((toTx r).version != 2) = true ∧ p.flt.fmtStandard = true := by
+      refine ⟨?_, c1.2⟩
+      simp only [toTx, bne_iff_ne, ne_eq]
+      intro h; exact c1.1 (by exact_mod_cast h)
+    rw [if_pos c1', if_pos c1]; simp [enc, Rs.fail, Tag.name]
+  · have c1' : ¬(((toTx r).version != 2) = true ∧ p.flt.fmtStandard = true) := by
+      intro h; apply c1; refine ⟨?_, h.2⟩
+      have h1 := h.1
+      simp only [toTx, bne_iff_ne, ne_eq] at h1
+      intro h2; apply h1; exact_mod_cast h2
+    rw [if_neg c1', if_neg c1]
+    by_cases c2 : Gen.Onchain.maxOnchainTxSize < r.baseSize ∧ p.flt.maxSize = true
+    · have c2' : decide (r.baseSize > 32768) = true ∧ p.flt.maxSize = true := by
+        simpa [maxOnchainTxSize_gen] using c2
+      rw [if_pos c2', if_pos c2]; simp [enc, Rs.fail, Tag.name]
+    · have c2' : ¬(decide (r.baseSize > 32768) = true ∧ p.flt.maxSize = true) := by
+        simpa [maxOnchainTxSize_gen] using c2
+      rw [if_neg c2', if_neg c2]
+      rw [anyChannel_eq]
+      cases ha : anyChannel r.outs with
+      | false =>
+        simp only [Bool.false_eq_true, if_false, pure_bind, false_and] <;> rfl
+      | true =>
+        simp only [if_true, nonMalleableE, C08_fn_is_tx_non_malleable, true_and]
+        by_cases c3 : r.nInputs = r.segwit.length
+        · have c3' : ¬ r.nInputs ≠ r.segwit.length := by simpa using c3
+          simp only [c3, if_true, c3', if_false, Rs.bind_ok, pure_bind, ne_eq, not_true_eq_false]
+          cases hall : r.segwit.all id <;> cases hnm : p.flt.nonMalleable <;>
+            simp only [Bool.not_true, Bool.not_false, Bool.false_eq_true, if_false, if_true, false_and, and_self, and_true,
+              true_and, and_false, enc, Rs.fail, Tag.name] <;> rfl
+        · simp [c3, enc, bind, Except.bind]
+
 
 end VlsModel.Props.C08Fn
